@@ -903,6 +903,27 @@ func (env *Env) callExpr(x *ast.CallExpr) Val {
 		}
 		return v
 	}
+	// a `deterministic` function of the repository, called by its bare name in a spec
+	for k, c := range tr.g.specs.Contracts {
+		if c.Determ && (k == name || strings.HasSuffix(k, "."+name)) {
+			var args []Val
+			for _, a := range x.Args {
+				args = append(args, env.eval(a))
+			}
+			fn := tr.g.ld.lookupFunc(k)
+			if fn == nil || fn.Signature.Results().Len() != 1 {
+				break
+			}
+			rt := fn.Signature.Results().At(0).Type()
+			cs := comps(rt)
+			if len(cs) != 1 {
+				break
+			}
+			if t, ok := tr.determTerm(k, args, cs[0].Sort); ok {
+				return Val{T: rt, C: []Term{t}}
+			}
+		}
+	}
 	if u, ok := tr.g.specs.UFuncs[name]; ok {
 		f := tr.e.declareFun("uf$"+u.Name, u.Args, u.Res)
 		var as []Term
